@@ -69,6 +69,9 @@ func (ex *Exec) stdStub(st *PState, fn *ssa.Function, full string, args []Value)
 		}
 	case "sync/atomic":
 		name := fn.Name()
+		if fn.Signature.Recv() != nil {
+			break // typed wrappers (atomic.Uint32 etc.) are inlined down to the plain functions
+		}
 		switch {
 		case strings.HasPrefix(name, "Load"):
 			return ex.load(st, args[0]), true
@@ -184,6 +187,9 @@ func (ex *Exec) recvAbstract(fn *ssa.Function) (Sort, bool) {
 func (ex *Exec) ldT(st *PState, p Value) *Term {
 	v := ex.load(st, p)
 	t, ok := v.(*Term)
+	if !ok && st.g.IsFalse() {
+		return ex.ts.Int64(0) // dead state (the access itself was a panic obligation)
+	}
 	if !ok {
 		fail("abstract operand is %T", v)
 	}
@@ -198,11 +204,20 @@ func (ex *Exec) abstractCall(st *PState, fn *ssa.Function, full string, args []V
 	if s == SReal {
 		return ex.realMethod(st, fn, args), true
 	}
+	rt := fn.Signature.Recv().Type()
+	if ex.isFelt(rt) {
+		return ex.feltMethod(st, fn, args), true
+	}
 	return ex.bigMethod(st, fn, args), true
 }
 
 func (ex *Exec) abstractFunc(st *PState, fn *ssa.Function, full string, args []Value) (Value, bool) {
 	ts := ex.ts
+	if len(ex.cfg.Abstract) > 0 {
+		if v, ok := ex.feltPkgFunc(st, fn, full, args); ok {
+			return v, true
+		}
+	}
 	if full == "math/big.NewInt" {
 		if _, ok := ex.abstractSort(fn.Signature.Results().At(0).Type().(*types.Pointer).Elem()); ok {
 			o := ex.alloc(st, "big.NewInt", fn.Signature.Results().At(0).Type().(*types.Pointer).Elem(), args[0])
